@@ -246,8 +246,11 @@ def check_case(ctx: Ctx, c: dict):
         with tempfile.TemporaryDirectory(prefix="vc10") as td:
             m = im.IDManager(os.path.join(td, "t.db"))
             try:
-                for n in ids:
-                    m.set_id(n, f"d{n}")
+                import datetime as _dt
+                base = _dt.datetime(2031, 1, 1)
+                for j, n in enumerate(ids):
+                    m.set_id(n, f"d{n}", atime=base + _dt.timedelta(seconds=j))      # distinct ages, oldest first
+                specsets = {}
                 for cb, u3, b, e in c["queries"]:
                     s = im.IDSpace(cb, u3)
                     u = im.IDSubspace(b, e)
@@ -260,6 +263,7 @@ def check_case(ctx: Ctx, c: dict):
                     ctx.eq("get_all filter", q, got, mod)
                     ctx.eq("count filter", q, cnt, len(mod))
                     spec = sorted(n for n in set(ids) if d.ask(f"spec_member {sp(cb, u3)} {b} {e} {n}") == "1")
+                    specsets[(cb, u3, b, e)] = set(spec)
                     if got != spec or cnt != len(spec):
                         ctx.violation("database range filter does not select exactly the members", q,
                                       {"got": got[:8], "spec": spec[:8], "count": cnt}, key="dbfilter-vs-spec")
@@ -277,6 +281,27 @@ def check_case(ctx: Ctx, c: dict):
                     if got != spec or cnt != len(spec):
                         ctx.violation("database range filter over all spaces does not select exactly the members", q,
                                       {"got": got[:8], "spec": spec[:8], "count": cnt}, key="dbfilter-allspaces-vs-spec")
+                # the same filter as `cleanup` uses it (twice: to count the excess and to pick the victims): exactly the
+                # oldest surplus MEMBERS go, every other row of every table stays
+                def dump_all():
+                    return sorted(r[0] for sx in im.IDSpace.all_values() for r in m.conn.execute(f"SELECT id FROM {sx.namespace_name()}"))
+                cur = list(ids)                      # insertion order = age order
+                for cb, u3, b, e in c["queries"]:
+                    members = [n for n in cur if n in specsets[(cb, u3, b, e)]]
+                    if len(members) < 2:
+                        continue
+                    keep = len(members) - 1 if len(members) % 2 else max(1, len(members) // 2)
+                    m.cleanup(im.IDSpace(cb, u3), im.IDSubspace(b, e), max_ids=keep)
+                    gone = members[:len(members) - keep]
+                    cur = [n for n in cur if n not in gone]
+                    got = dump_all()
+                    q = dict(k="dbfilter", ids=ids, queries=[[cb, u3, b, e]], cleanup_keep=keep)
+                    ctx.count("dbfilter:cleanup")
+                    if got != sorted(cur):
+                        ctx.violation("cleanup of a subspace did not remove exactly its oldest surplus members", q,
+                                      {"wrongly_removed": sorted(set(cur) - set(got))[:8], "wrongly_kept": sorted(set(got) - set(cur))[:8],
+                                       "members": len(members), "keep": keep}, key="dbfilter-cleanup-vs-spec")
+                        cur = [n for n in ids if n in set(got)]
             finally:
                 m.close()
     elif k == "str":
